@@ -27,17 +27,17 @@ def gen_program(rng):
     bodies = []
     for i in range(k):
         stmts = []
-        for _ in range(rng.randint(0, 4)):
+        for _ in range(rng.randint(0, 6)):
             r = rng.random()
             if r < 0.45:
-                stmts.append(('add', rng.choice([1, 2, 3, 15, 16, 17, 255, 256, 1000, 70000])))
+                stmts.append(('add', rng.choice([1, 2, 3, 15, 16, 17, 255, 256, 1000, 4095, 4096, 5000, 40000, 65535, 70000])))
             elif r < 0.85 and i + 1 < k:
                 j = rng.randint(i + 1, k - 1)
                 stmts.append(('call', j, rng.randint(0, 3)))
             elif r < 0.95:
-                stmts.append(('rec',))
+                stmts.append(('rec', rng.choice([0, 0, 1, 2, 3, 4, 5, 6])))
             else:
-                stmts.append(('pad', rng.randint(1, 12)))
+                stmts.append(('pad', rng.randint(1, 40)))
         bodies.append(stmts)
     order = list(range(k))
     rng.shuffle(order)
@@ -54,7 +54,8 @@ def gen_program(rng):
                 out.append('p%d(%d)' % (st[1], st[2]) if kinds[st[1]] == 'proc' else 't := p%d(%d)' % (st[1], st[2]))
             elif st[0] == 'rec':
                 c = 'p%d(n - 1)' % i if kinds[i] == 'proc' else 't := p%d(n - 1)' % i
-                out.append('if n = 0 then skip else %s' % c)
+                filler = '; '.join(['t := t + 1'] * (st[1] if len(st) > 1 else 0))
+                out.append('if n = 0 then skip else { %s }' % ('; '.join(x for x in (filler, c) if x)))
             elif st[0] == 'pad':
                 out += ['t := t + 1'] * st[1]
         if kinds[i] == 'func':
@@ -204,12 +205,21 @@ def main():
                              {'source': src.decode(), 'calls': seq, 'names': names}, tags={'kind': 'entries'})
             elif len(ck.cov['samples']) < 5 and k % 9 == 0:
                 ck.sample({'source_head': src.decode()[:160], 'trace_lines': len(real), 'entries': entries[:10], 'symbols': syms})
+    nasm = 300 if not ck.thorough() else 20000
+    acases = [c for c in A.standard_cases(ck, nasm, nasm, 'C15') if c['items'] is not None and any(it[0] == 'label' and it[1] in ('func', 'proc') for it in c['items'])]
+    pr = A.pipeline(ck, acases, need_model=False)
+    if pr is not None:
+        for c in pr[0]:
+            if c['accept']:
+                ocases.append({'prog': A.to_oracle_prog(c['items']), 'file': c['file'], 'listing': None, 'use_syms': True})
+                ometa.append((c['src'], None, None))
+                dist['asm'] = dist.get('asm', 0) + 1
     res = A.oracle(hv, ocases, base)
     for j, rj in enumerate(res):
         ck.cov['evaluations'] += 1
         if rj is None or rj['symtab'] != 'ok' or rj['image'] != 'ok':
             nbad += 1
-            ck.violation('the binary xcmp wrote fails the spec validators (image=%s symtab=%s): symbol offsets are not the first instruction byte of each procedure, or a reference misses its label' % ((rj or {}).get('image'), (rj or {}).get('symtab')),
+            ck.violation('the binary xcmp/hexasm wrote fails the spec validators (image=%s symtab=%s): symbol offsets are not the first instruction byte of each procedure, or a reference misses its label' % ((rj or {}).get('image'), (rj or {}).get('symtab')),
                          {'source': ometa[j][0].decode(), 'calls': ometa[j][1], 'names': ometa[j][2]}, tags={'kind': 'symtab'})
     ck.cov['distinct_nontrivial'] = len(progs)
     ck.cov['rule'] = 'generated X programs (1-10 procedures/functions in shuffled order, DAG calls, self recursion, never-called procedures, varied body sizes) + fib/fac; each distinct; non-trivial = compiled and traced'
